@@ -225,6 +225,18 @@ class Exec(Engine):
                 yield SInt(r), q
             return
         if isinstance(o, SDict):
+            if attr == "pop" and av and isinstance(av[0], SConc):
+                k = av[0].v
+                if k in o.d:
+                    d = dict(o.d)
+                    v = d.pop(k)
+                    s.rebind(n, p, SDict(d))
+                    yield v, p
+                elif len(av) > 1:
+                    yield av[1], p
+                else:
+                    s.may_raise("KeyError", z3.BoolVal(False), p, f"pop:line{n.lineno}", n.lineno)
+                return
             if attr == "get":
                 k = av[0]
                 if not isinstance(k, SConc):
@@ -442,6 +454,15 @@ class Exec(Engine):
         yield from s._quant(n, p, False)
 
     def _extremum(s, n, p, is_max):
+        if len(n.args) >= 2 and not n.keywords:
+            for av, p1 in s.ev_list(n.args, p):
+                if not all(isinstance(a, (SInt, SBool)) for a in av):
+                    raise OutOfSubset("max/min of non-int arguments")
+                r = av[0].t
+                for a in av[1:]:
+                    r = z3.If((a.t >= r) if is_max else (a.t <= r), a.t if True else r, r) if False else (z3.If(a.t > r, a.t, r) if is_max else z3.If(a.t < r, a.t, r))
+                yield SInt(r), p1
+            return
         if len(n.args) != 1 or n.keywords:
             raise OutOfSubset("max/min with several arguments or default")
         for v, p1 in s.ev(n.args[0], p):
@@ -592,6 +613,35 @@ class Exec(Engine):
     def st_FunctionDef(s, st, p):
         p.bind(st.name, SFunc(st))
         yield None, p
+
+    def st_Delete(s, st, p):
+        paths = [p]
+        for tg in st.targets:
+            nxt = []
+            for q in paths:
+                if not (isinstance(tg, ast.Subscript) and isinstance(tg.value, ast.Name) and not isinstance(tg.slice, ast.Slice)):
+                    raise OutOfSubset("del of something other than list[index]")
+                o = q.lookup(tg.value.id)
+                for idx, q1 in s.ev(tg.slice, q):
+                    if isinstance(o, SDict) and isinstance(idx, SConc):
+                        q2 = s.may_raise("KeyError", z3.BoolVal(idx.v in o.d), q1, f"del:line{st.lineno}", st.lineno)
+                        if q2 is not None and idx.v in o.d:
+                            d = dict(o.d)
+                            del d[idx.v]
+                            q2.bind(tg.value.id, SDict(d))
+                            nxt.append(q2)
+                        continue
+                    sq = s.as_seq(o, q1)
+                    i, q2 = s.index(sq, idx.t, q1, f"del:line{st.lineno}", st.lineno)
+                    if q2 is None:
+                        continue
+                    r = fresh("del", z3.ArraySort(I, sort_of(sq.ek)))
+                    q2.pc.append(s.forall(0, sq.n - 1, lambda k: z3.Select(r, k) == z3.If(k < i, z3.Select(sq.arr, k), z3.Select(sq.arr, k + 1))))
+                    q2.bind(tg.value.id, SSeq(r, sq.n - 1, sq.ek, "list"), nonlocal_=not (tg.value.id in q2.frames[-1]))
+                    nxt.append(q2)
+            paths = nxt
+        for q in paths:
+            yield None, q
 
     def st_Nonlocal(s, st, p):
         p.frames[-1].setdefault("__nonlocal__", set())
